@@ -709,6 +709,10 @@ func (w *World) accumulates(g *FG, ret ssa.Value, A []bool) bool {
 		}
 		seen[v] = true
 		switch x := v.(type) {
+		case *ssa.MakeInterface:
+			walk(x.X)
+		case *ssa.ChangeType:
+			walk(x.X)
 		case *ssa.Phi:
 			for _, e := range x.Edges {
 				walk(e)
